@@ -1542,7 +1542,7 @@ func c36gen(r *rand.Rand, tier string, emit func(string)) {
 	c36genExhaustive(emit)
 	nw, nl := 40, 150
 	if tier == "thorough" {
-		nw, nl = 800, 200
+		nw, nl = 400, 200
 	}
 	emitted := map[string]bool{}
 	for i := 0; i < nw; i++ {
